@@ -154,7 +154,8 @@ RULES = {
                  'their textbook definitions in terms of sin cos sinh cosh exp log pow (any square root of -1 accepted as the unit)',
     'R-BRANCH': 'half-plane correction of the bicomplex argument: on sign representatives of (Re z1, Re z2) the multiple of pi that '
                 '_arg_c adds to arctan(z2 / z1) is odd when Re z1 < 0 (arctan alone has a positive cosine, so exp(log z) = z and '
-                'the reduction to the complex logarithm at z2 = 0 need it) and zero when Re z1 > 0',
+                'the reduction to the complex logarithm at z2 = 0 need it) and zero when Re z1 > 0 or z1 = 0 (arctan(z2 / tiny) is '
+                'already +-pi/2 there; purely imaginary z1 is left out, it sits on the branch cut)',
     'R-STATE': 'results are functions of the current components only: after a write to the components (z[k] = v, through a '
                'slice wrapper z[a:b][k] = v, which shares storage, or into z.z1 directly) mod_c / log / a power of z equal those of a '
                'fresh object built from the same components (no memoised quantity survives a write)',
@@ -440,7 +441,7 @@ def branch(ctx, mc):
     """pi-multiple added by _arg_c on concrete sign representatives (arctan stays an opaque symbol)."""
     rep = ctx.rep
     where = where_of(mc, '_arg_c')
-    for re1, im1 in ((-2, 0), (-2, 1), (Fr(-1, 3), -1), (3, 0), (Fr(1, 2), 1)):
+    for re1, im1 in ((-2, 0), (-2, 1), (Fr(-1, 3), -1), (3, 0), (Fr(1, 2), 1), (0, 0)):
         for re2, im2 in ((0, 0), (0, 1), (1, 0), (-1, 0), (Fr(1, 1000), -2), (Fr(-1, 1000), 0)):
             label = 'z1=%s%+dj, z2=%s%+dj' % (re1, im1, re2, im2)
 
@@ -449,7 +450,9 @@ def branch(ctx, mc):
                     return Poly.const(0) if (isinstance(x, (int, Fr)) and x == 0) or (isinstance(x, Poly) and x.is_zero()) \
                         else Poly.sym('ATAN')
                 return NotImplemented
-            I, models = make_interp(ctx.repo, hook)
+            I, models = make_interp(ctx.repo, hook, tiny_zero=False)      # z1 = 0 is a case: keep the regulariser
+            models.hooks['np.clip'] = lambda m, a, *args, **kw: a
+            ndarr.POSITIVE_ATOMS.add('TINY')
             cref = I.get_global('multicomplex', 'Bicomplex')
             try:
                 a = I.getattr(cref, '_arg_c')(Arr((), [Poly.const(re1) + I_ * im1]), Arr((), [Poly.const(re2) + I_ * im2]))
@@ -465,14 +468,14 @@ def branch(ctx, mc):
                 if k is None:
                     rep.undecided('R-BRANCH', 'multicomplex.Bicomplex._arg_c', fact, label)
                     continue
-                ok = (k == 0) if re1 > 0 else (k.denominator == 1 and k.numerator % 2 == 1)
+                ok = (k == 0) if re1 >= 0 else (k.denominator == 1 and k.numerator % 2 == 1)
             except (AlgebraError, TypeError, AttributeError) as exc:
                 rep.undecided('R-BRANCH', 'multicomplex.Bicomplex._arg_c', {'cannot_evaluate': str(exc)[:160]}, label)
                 continue
             except InterpRaise as exc:
                 ok, fact = False, {'raises': exc.exc_name, 'message': exc.msg[:120]}
             rep.check(ok, 'R-BRANCH', 'multicomplex.Bicomplex._arg_c', where, fact,
-                      'odd multiple of pi for Re z1 < 0, none for Re z1 > 0', label, key='branch')
+                      'odd multiple of pi for Re z1 < 0, none for Re z1 > 0 and for z1 = 0', label, key='branch')
 
 
 def state(ctx, mc):
